@@ -40,6 +40,20 @@ Theorem C12_recovery_segments :
       = ROk (goods tree l) (bads tree l).
 Proof. exact recovery_segments. Qed.
 
+(* ... and every one of those errors is located (line and column of the token under the cursor when the statement
+   parser gave up) inside its own segment: at or after the first token of the failing statement, with no semicolon
+   between the located token and the semicolon / end of input that terminates that segment *)
+Theorem C12_errors_located_in_own_segment :
+  forall tree ntok is_eof is_semi starts_stmt ps,
+    (forall p c p', ps p = SErr c p' -> p <= p') ->
+    forall l pos, segs tree ntok is_eof is_semi starts_stmt ps pos l ->
+    Forall (fun sc : nat * N =>
+              exists p' e, ps (fst sc) = SErr (snd sc) p' /\ err_loc tree ps (fst sc) = p' /\ fst sc <= p' /\ p' <= e /\
+                           ((e <? ntok) && negb (is_eof e) = true /\ is_semi e = true \/ (e <? ntok) && negb (is_eof e) = false) /\
+                           (forall k, p' <= k < e -> is_semi k = false))
+           (bads tree l).
+Proof. exact segs_errors_located. Qed.
+
 (* non-vacuity: tokens  K . S K . . . S K . E : statement, ';', a statement whose well-formed prefix [K .] is followed
    by two stray tokens, ';', statement.  Recovery returns the first and the third tree and one error at token 5. *)
 Example C12_segments_example :
@@ -52,3 +66,4 @@ Proof. vm_compute. split; reflexivity. Qed.
 Print Assumptions C12_recovery_terminates.
 Print Assumptions C12_errors_iff_strict_fails.
 Print Assumptions C12_recovery_segments.
+Print Assumptions C12_errors_located_in_own_segment.
